@@ -4,12 +4,14 @@ from __future__ import annotations
 import ast
 import os
 
-from engine.cfg import CFG
+from engine.cfg import CFG, normalise_compare, atoms
 from engine.layout import Writer, Reader, normalise, compare, show, LayoutError
+from engine import pat
 from engine.model import src, stmt_key, dotted, AnalysisError
 from engine.util import own_nodes, calls_with_nodes, where, with_exprs
 
 RULES = {
+    "R-02.14": "a refusal and the guards after it agree (contradiction rule over dns/rdtypes): when `if a or b: raise` has been passed, both a and b are false, so a later test of the same block that still asks `not a and ...` states a belief the refusal contradicts - one of the two is wrong (e.g. GPOS: `left == b'' or right == b''` refuses '.5' and '100.', which the per-side guards `not left == b'' and ...` were written to allow). Reported as a contradiction; which side is wrong is for the reader",
     "R-02.13": "SVCB `mandatory` keys are encoded in ascending NUMERIC order (the reader refuses anything else): MandatoryParam sorts the validated key numbers - the sorted() call encloses the _validate_key mapping, it is not applied to the caller's spellings first",
     "R-02.12": "plain encoding keeps the octets: a record writer lower-cases an embedded name only when the caller asked for the canonical form - the `canonicalize` flag a subclass hands to its base writer is the caller's (or the constant the RFC 4034 table prescribes), never a constant True (C15 R-15.1 adopted)",
     "R-02.11": "the reader accepts every value the writer can produce at the edges of a range: for each range refusal of LOC.from_wire_parser (`x < MIN or x > MAX` over the folded constants) the test is evaluated - by the checker, on the expression - at MIN and MAX (must pass) and at MIN-1 and MAX+1 (must refuse)",
@@ -30,7 +32,7 @@ INLINE = {("dns.rdtypes.IN.APL.APL._to_wire", "item.to_wire"): "dns.rdtypes.IN.A
 GENERIC_OK = {"TYPE0", "NONE", "MD", "MF", "MB", "MG", "MR", "NULL", "MINFO", "SIG0", "NXT", "A6", "UNSPEC", "TA", "IXFR", "AXFR", "MAILB", "MAILA", "ANY", "NXNAME"}
 NO_METHOD_OK = {("OPT", "from_text"): "OPT is a pseudo-RR with no master-file syntax"}
 # name fields whose writer passes the origin but whose reader does not (one line of reason each)
-NAME_ORIGIN_OK = {"dns.rdtypes.ANY.TSIG.TSIG": "the TSIG algorithm name is absolute by construction: from_text reads it with relativize=False and the message layer builds it from the absolute constants in dns.tsig; a TSIG never lives in a zone"}
+NAME_ORIGIN_OK = {"dns.rdtypes.ANY.TSIG.TSIG": "the TSIG algorithm name is absolute by construction: from_text reads it with relativize=False and the message layer builds it from the absolute constants in dns.tsig; a TSIG never lives in a zone; reading it with the origin would be wrong, not merely unnecessary: the message parser passes the message's origin to every rdata, so under the root origin (a relativized root-zone transfer) `hmac-sha256.` would come back relative and no key would match"}
 # (label, writer function, writer variable, reader function, reader variable) of integer fields that carry a flag in their top bit
 PACKED = [
     ("APL negation bit", "dns.rdtypes.IN.APL.APLItem.to_wire", "l", "dns.rdtypes.IN.APL.APL.from_wire_parser", "afdlen"),
@@ -370,8 +372,34 @@ def run(model, rep, tier):
     rep.floor("R-02.11", n_rng, 2)
     from rules.c04 import check_wrappers
     check_wrappers(model, rep, "R-02.10")
-    rep.share(model, "C05", {"R-05.5"}, "R-02.9", "every from_wire_parser ends in cls(...), whose __init__ validates each field with _as_bytes/_as_uintN")
+    rep.share(model, "C05", {"R-05.5", "R-05.15"}, "R-02.9", "every from_wire_parser ends in cls(...), whose __init__ validates each field with _as_bytes/_as_uintN")
     rep.share(model, "C01", {"R-01.3"}, "R-02.8", "parser.get_name() decodes every embedded domain name through dns.name.from_wire_parser")
+    # ---------------------------------------------------------------- R-02.14
+    NEG14 = {"==": "!=", "!=": "==", "<": ">=", ">=": "<", ">": "<=", "<=": ">", "truthy": "falsy", "falsy": "truthy", "is": "is not", "is not": "is", "in": "not in", "not in": "in"}
+    n14 = 0
+    for f14 in sorted(model.all_functions(), key=lambda g: g.qualname):
+        if not f14.module.name.startswith("dns.rdtypes"):
+            continue
+        for blk in pat._bodies(f14.node):
+            known = []
+            for st in blk:
+                if isinstance(st, ast.If):
+                    nc = normalise_compare(st.test)
+                    ats = atoms(nc)
+                    for a_ in ats:
+                        na = (a_[0], NEG14.get(a_[1]), a_[2])
+                        hit = next((k for k in known if k[0] == na), None)
+                        if hit is not None and nc[0] in ("and", "atom"):
+                            rep.bad("R-02.14", f14.qualname, where(f14, st), f"`{src(st.test)[:70]}` still tests `{a_[0]} {a_[1]} {a_[2]}`, which the refusal `{hit[1][:60]}` above already guarantees: the refusal rejects values this guard was "
+                                    "written to let through (well-formed input refused with a format error), or the guard is dead", stmt="refusal-vs-guard")
+                    if nc[0] == "or" and not st.orelse and st.body and isinstance(st.body[-1], ast.Raise):
+                        n14 += 1
+                        known += [(a_, src(st.test)) for a_ in ats]
+                stores = {x.id for x in ast.walk(st) if isinstance(x, ast.Name) and isinstance(x.ctx, ast.Store)}
+                if stores:
+                    known = [k for k in known if not (stores & {x.id for x in ast.walk(ast.parse(k[0][0] + " , " + (k[0][2] or "0"), mode="eval")) if isinstance(x, ast.Name)})]
+    rep.floor("R-02.14", n14, 10)
+    rep.ok("R-02.14", "dns.rdtypes", "dns/rdtypes", f"{n14} multi-clause refusals: no later guard of the same block re-tests a clause they exclude", stmt="refusal-vs-guard")
     rep.meta["explanation"] = (
         "Sibling cross-check: for each of ~70 record classes, the helper codecs, 9 SVCB parameter classes and 11 EDNS option classes the writer and the reader are abstractly interpreted into "
         "layout token sequences (struct formats expanded, length fields linked to the data they count, loops/optional tails/helper codecs recognised) and compared. Exact-consumption and dispatch "
@@ -379,6 +407,8 @@ def run(model, rep, tier):
 
 
 WITNESSES = [
+    {"id": "c02-gpos-refusal-widened", "rule": "R-02.14", "file": "dns/rdtypes/ANY/GPOS.py", "expect": "fires",
+     "old": '    if left == b"" and right == b"":', "new": '    if left == b"" or right == b"":'},
     {"id": "c02-mandatory-sorted-by-spelling", "rule": "R-02.13", "file": "dns/rdtypes/svcbbase.py", "expect": "fires",
      "old": "        keys = sorted([_validate_key(key)[0] for key in keys])", "new": "        keys = [_validate_key(key)[0] for key in sorted(keys)]"},
     {"id": "c02-loc-reader-upper-bound-exclusive", "rule": "R-02.11", "file": "dns/rdtypes/ANY/LOC.py", "expect": "fires",
